@@ -391,3 +391,42 @@ Proof.
     + destruct (finalize ord (cp_of pl') None ps) as [[ps'|]|e]; cbn [app]; f_equal; apply IH.
     + cbn [app]. f_equal. apply IH.
 Qed.
+
+(* ---- automated transactions ---- *)
+Lemma run_journal_x_no_rules ord permissive : forall xs pl hist,
+  run_journal_x (fun _ _ => []) ord permissive pl hist xs = run_journal_a ord permissive pl hist xs.
+Proof.
+  induction xs as [|x xs IH]; intros pl hist; cbn [run_journal_x run_journal_a]; [reflexivity|].
+  destruct (resolve_posts ord permissive pl hist [] x) as [r pl'].
+  destruct r as [ps|e]; [|f_equal; apply IH].
+  destruct (finalize ord (cp_of pl') None ps) as [[ps'|]|e]; cbn zeta; rewrite ?app_nil_r; f_equal; apply IH.
+Qed.
+
+Lemma auto_ext_no_rules cp ps : auto_ext [] cp ps = [].
+Proof. reflexivity. Qed.
+
+Lemma running_app h1 h2 acct ro c : running (h1 ++ h2) acct ro c == running h1 acct ro c + running h2 acct ro c.
+Proof.
+  induction h1 as [|h h1 IH]; cbn [app running]; [ring|]. rewrite IH. ring.
+Qed.
+
+Lemma posts_to_history_app ps qs : posts_to_history (ps ++ qs) = posts_to_history ps ++ posts_to_history qs.
+Proof.
+  unfold posts_to_history. induction ps as [|p ps IH]; cbn [app fold_right]; [reflexivity|].
+  rewrite IH. destruct (p_amt p); reflexivity.
+Qed.
+
+(* the balance a later assertion is judged on holds what the rules added, posting by posting *)
+Theorem generated_postings_reach_their_accounts hist ps gen acct ro c :
+  running (hist ++ posts_to_history (ps ++ gen)) acct ro c ==
+  running (hist ++ posts_to_history ps) acct ro c + running (posts_to_history gen) acct ro c.
+Proof. rewrite posts_to_history_app, app_assoc, running_app. reflexivity. Qed.
+
+(* and a generated posting to the account contributes its amount (a virtual one only where virtual postings count) *)
+Lemma running_one_generated acct k a c ro :
+  running (posts_to_history [mkPost acct k (Some a) None None false true false]) acct ro c ==
+  if negb ro || negb (is_virtual (mkPost acct k (Some a) None None false true false)) then at_comm (strip a) c else 0.
+Proof.
+  cbn [posts_to_history fold_right p_amt running a_acct a_virtual a_amt p_acct]. rewrite str_eqb_refl. cbn [andb].
+  destruct (negb ro || _); ring.
+Qed.
